@@ -1,4 +1,5 @@
 import TangeloProofs.Lemmas.OpInverse
+import TangeloProofs.CycLaws
 import TangeloProofs.Lemmas.CircuitInv
 import TangeloModel.Clifford
 /-!
@@ -206,5 +207,19 @@ theorem clifford_table_correct : Clifford.allRowsOk = true := by decide +kernel
 /-! ## non-vacuity -/
 example : (Op.one .RX (Ang.piQuarter 1) 0 [1, 2]).qubits.Nodup := by decide
 example : Gate.toOp ⟨"CRZ", [1], some [0, 2], .ang (Ang.piQuarter 3), false⟩ = some (Op.one .RZ (Ang.piQuarter 3) 1 [0, 2]) := by rfl
+
+/-! ## the same statements for the amplitudes the model driver computes (`Cyc = ℚ(ζ₁₆)`, `cycConsts`) -/
+
+/-- `Circuit.inverse` undoes the circuit on the executable model -/
+theorem circuit_inverse_sem_exec (c ci : Circuit) (ops : List Op)
+    (h1 : gatesToOps c.gates = some ops) (h2 : c.inverse = .ok ci) (hwf : ∀ o ∈ ops, o.qubits.Nodup) (ψ : State Cyc) :
+    ∃ ops', gatesToOps ci.gates = some ops' ∧ semOps cycConsts ops' (semOps cycConsts ops ψ) = ψ :=
+  circuit_inverse_sem cycConsts cycConsts_laws c ci ops h1 h2 hwf ψ
+
+/-- merging two rotations is sound on the executable model -/
+theorem merge_pair_sound_exec (b : Base) (hb : b = .RX ∨ b = .RY ∨ b = .RZ ∨ b = .PHASE)
+    (a a' : Ang) (t : Nat) (cs : List Nat) (ht : t ∉ cs) (ψ : State Cyc) :
+    (Op.one b a' t cs).sem cycConsts ((Op.one b a t cs).sem cycConsts ψ) = (Op.one b (a + a') t cs).sem cycConsts ψ :=
+  merge_pair_sound cycConsts cycConsts_laws b hb a a' t cs ht ψ
 
 end Tangelo.C09
